@@ -63,7 +63,7 @@ fn parent_prefix() -> impl Strategy<Value = (Vec<i64>, Vec<i64>, Vec<RSlot>)> {
     )
 }
 
-fn children_case() -> impl Strategy<Value = ExecCase> {
+pub fn children_case() -> impl Strategy<Value = ExecCase> {
     (
         parent_prefix(),
         programs::compute_block(programs::StructCfg::default()),
@@ -105,7 +105,7 @@ fn children_case() -> impl Strategy<Value = ExecCase> {
 }
 
 /// Total child memory around the limit; breadth <= 0; nested compute; one failing child.
-fn error_case() -> impl Strategy<Value = ExecCase> {
+pub fn error_case() -> impl Strategy<Value = ExecCase> {
     let mem_boundary = (1i64..9, 0i64..4, -2i64..3).prop_map(|(b, k, delta)| {
         // child i allocates (i mod 3) + k words and writes i into the first (if any)
         let total: i64 = (0..b).map(|i| (i % 3) + k).sum();
